@@ -102,6 +102,8 @@ def build(case):
             U = U - np.diag(np.diag(U, 1), 1)
             U[0, n - 1] = 1.5
         U = U + np.diag(d)
+        if case["cplx"]:  # complex triangular: complex entries above the diagonal and unit-modulus phases on it
+            U = U * (1 + 0.5j) + np.diag(d * (np.exp(1j * rng.uniform(-1, 1, n)) - 1))
         M = U.T.copy() if kind == "tri_lower" else U
         A = ops.Triangular(M.copy(), lower=kind == "tri_lower")
         condx = float(np.linalg.cond(np.linalg.eig(M)[1]))
